@@ -38,7 +38,7 @@ Profile profile_for(const std::string &c) {
     } else if (c == "C03") {
         set(p.w_driver, {{LIFE, 10}, {MSG, 14}, {SUBS, 8}, {SRC, 34}, {ENV, 26}, {REG, 3}});
         set(p.w_script, {{LIFE, 10}, {MSG, 12}, {SRC, 10}, {ENV, 12}, {CTX, 12}, {ERRNO, 22}, {SUBS, 4}});
-        p.mod_flag_bits = 1; p.src_kinds = 127; p.src_flag_bits = 1 | 2 | 4; p.sub_flag_bits = 1 | 2 | 4;
+        p.mod_flag_bits = 1; p.src_kinds = 127; p.src_flag_bits = 1 | 2 | 4; p.sub_flag_bits = 1 | 2 | 4 | 16 | 32;   // (low/high priority subscriptions too: a parked low-priority message still belongs to its owner, with its user data)
     } else if (c == "C04") {
         set(p.w_driver, {{LIFE, 16}, {MSG, 16}, {SUBS, 10}, {SRC, 18}, {ENV, 12}, {BATCH, 3}, {TB, 1}, {CTX, 4}, {REF, 8}, {QUERY, 5}, {REG, 8}, {BURST, 1}, {SETEVAL, 2}});
         set(p.w_script, {{LIFE, 18}, {MSG, 16}, {SUBS, 10}, {SRC, 12}, {ENV, 6}, {STASH, 8}, {BECOME, 4}, {BATCH, 3}, {CTX, 8}, {REF, 12}, {ERRNO, 2}, {QUERY, 4}, {REG, 5}, {BURST, 1}});
@@ -151,7 +151,7 @@ struct Gen {
                 long fl = rbits(pf.sub_flag_bits, 0.25);
                 // C09 compares set sizes at call boundaries: a LOW one-shot subscription is consumed when its message is received but the
                 // event is handed over later (with the next invocation), so its membership is not observable in between: not generated there
-                if (camp == "C09" && (fl & 1)) fl &= ~16L;
+                if ((camp == "C09" || camp == "C03") && (fl & 1)) fl &= ~16L;
                 long mod = rmod(), topic = rtopic(true);
                 p.add(where, "sub", {mod, topic, fl});
                 // bias: in-flight state around a one-shot subscription - a message pending for it, the topic subscribed again with other
